@@ -6,7 +6,7 @@ PROPERTY = 'C12'
 LEVEL = 'exploration'
 RULE = ('generated clusters whose processes change state continuously (automatic distribution, user start / stop / '
         'restart requests, kills, duplicates, backoff / exit behaviours) while instances start staggered, crash and '
-        'are lost; lossless transport (only the guards of the code drop events); oracle at quiescence: per process, '
+        'are lost (one family: while processes that ignore SIGTERM are STOPPING there); lossless transport (only the guards of the code drop events); oracle at quiescence: per process, '
         'identical running set and running state on every member of a group, equal to the truth of the Supervisors '
         'it sees RUNNING; non-trivial = quiescent run with at least one process truly running and two members '
         'compared; distinct = distinct (topology, strategies, distributions, actions) tuples')
@@ -27,13 +27,25 @@ KNOBS = {'n_min': 2, 'n_max': 4,
          'early_p': 0.5, 'n_actions': [1, 2, 3, 4, 6, 8], 'fence': 'false'}
 
 
+# an additional family: instances are lost while processes are STOPPING there (processes that ignore SIGTERM are
+# asked to stop, then an instance crashes or restarts within stopwaitsecs)
+STOPPING_KNOBS = {'n_min': 3, 'n_max': 4,
+                  'apps': {'n_apps': (1, 2), 'n_progs': (2, 4), 'seq_max': 2, 'startsecs': (0, 2),
+                           'stopwaitsecs': (10, 25), 'managed_p': 0.8, 'autorestart': ('false',)},
+                  'behaviours': ['stubborn', 'stubborn', 'slow_stop', 'normal'],
+                  'actions': ['stop_application', 'stop_process', 'stop_process'], 'then': ['crash'],
+                  'n_actions': [1, 2, 3], 'gaps': [0.0, 0.3, 1.0, 2.5], 'early_p': 0.0, 'fence': 'false'}
+STOPPING_COUNT = {'quick': 200, 'thorough': 3000}
+
+
 def plan(tier, seed):
-    return [{'seed': seed * 1000003 + i} for i in range(COUNT[tier])]
+    return [{'seed': seed * 1000003 + i} for i in range(COUNT[tier])] + \
+        [{'seed': seed * 1000003 + 800000 + i, 'family': 'lost-while-stopping'} for i in range(STOPPING_COUNT[tier])]
 
 
 def run_case(case):
     mon = AgreementMonitor()
-    run = Run(case, KNOBS, [mon])
+    run = Run(case, STOPPING_KNOBS if case.get('family') == 'lost-while-stopping' else KNOBS, [mon])
     violations = run.execute()
     nontrivial = mon.counters.get('running_views_compared', 0) > 0 and mon.counters.get('pairs_compared', 0) > 0
     return {'violations': violations, 'counters': run.counters,
